@@ -182,4 +182,25 @@ example : fsOK exFS := by
 example : serve ⟨[], [[42]]⟩ ⟨[([47, 114], [[97, 46, 116, 120, 116]])], [[47, 114, 47, 97, 46, 116, 120, 116]]⟩
     [47] [47, 114] [47, 97] = .opened [47, 114, 47, 97, 46, 116, 120, 116] := by decide
 
+/-! ### Non-vacuity on the input classes added by the mutation audit (harness/mutants/C26) -/
+
+-- a sibling that differs from the parent only in letter case, or by a trailing line feed, is refused;
+-- so is a path that merely contains the parent's path further down
+example : preauthChild [47] [47, 116, 109, 112, 47, 118, 114, 111, 111, 116]
+    [46, 46, 47, 86, 82, 79, 79, 84, 47, 120] = none := by decide
+example : preauthChild [47] [47, 116, 109, 112, 47, 118, 114, 111, 111, 116]
+    [46, 46, 47, 118, 114, 111, 111, 116, 10] = none := by decide
+example : preauthChild [47] [47, 116, 109, 112, 47, 118, 114, 111, 111, 116]
+    [47, 101, 118, 105, 108, 47, 116, 109, 112, 47, 118, 114, 111, 111, 116, 47, 120] = none := by decide
+-- `..` followed by a line feed is an ordinary name: a direct child, and `descendant` stays below it
+example : child [47] [47, 116, 109, 112, 47, 118, 114, 111, 111, 116] [46, 46, 10]
+    = some [47, 116, 109, 112, 47, 118, 114, 111, 111, 116, 47, 46, 46, 10] := by decide
+example : descendant [47] [47, 116, 109, 112, 47, 118, 114, 111, 111, 116] [[46, 46, 10], [120]]
+    = some [47, 116, 109, 112, 47, 118, 114, 111, 111, 116, 47, 46, 46, 10, 47, 120] := by decide
+-- GET /%ff%2f..%2f..%2fr-evil%2fs (one segment: undecodable byte, encoded separators, `..`) and
+-- GET /..%0a/r-evil/s are 404
+example : serve exCfg exFS [47] [47, 114] [47, 37, 102, 102, 37, 50, 102, 46, 46, 37, 50, 102, 46, 46, 37, 50, 102,
+    114, 45, 101, 118, 105, 108, 37, 50, 102, 115] = .notFound := by decide
+example : serve exCfg exFS [47] [47, 114] [47, 46, 46, 37, 48, 97, 47, 114, 45, 101, 118, 105, 108, 47, 115] = .notFound := by decide
+
 end TwistedProps.C26
